@@ -250,10 +250,21 @@ func ReadFixedString(buf *bytes.Buffer, fixedLen int) (string, error) {
 func ReadFixedStringTrimPadding(buf *bytes.Buffer, fixedLen int, padChar rune, padLeft bool) (string, error) {
 	strBytes := make([]byte, fixedLen)
 	_, err := io.ReadFull(buf, strBytes)
+	// Trim by byte: the writer pads with byte(padChar), and a cutset built from
+	// string(padChar) would be the rune's UTF-8 encoding, which never matches a pad byte >= 0x80.
+	pad := byte(padChar)
 	if padLeft {
-		return string(bytes.TrimLeft(strBytes, string(padChar))), err
+		i := 0
+		for i < len(strBytes) && strBytes[i] == pad {
+			i++
+		}
+		return string(strBytes[i:]), err
 	}
-	return string(bytes.TrimRight(strBytes, string(padChar))), err
+	j := len(strBytes)
+	for j > 0 && strBytes[j-1] == pad {
+		j--
+	}
+	return string(strBytes[:j]), err
 }
 
 func ReadFixedStringList[T constraints.Unsigned](buf *bytes.Buffer, fixedLen int) ([]string, error) {
